@@ -85,7 +85,19 @@ fn quote_case(case: &Value) -> Value {
     let protected: Vec<u8> = case["protected"].as_array().unwrap().iter().map(|x| x.as_u64().unwrap() as u8).collect();
     let q = Quoter::new(b"", &protected);
     let out = q.requote(s.as_bytes()).unwrap_or_else(|| s.as_bytes().to_vec());
-    json!({"ev":"quote","s":case["s"],"protected":case["protected"],"out":out})
+    // the same decoder as applications meet it: the path of a request URL is the decoded bytes (escapes of '%', '/', '+' kept),
+    // read as UTF-8 with replacement characters - never the text as received because some escape is not UTF-8
+    let path = format!("/{s}");
+    let url_ok = match path.parse::<actix_web::http::Uri>() {
+        Ok(uri) => {
+            let url = actix_router::Url::new(uri);
+            let dq = Quoter::new(b"", b"%/+");
+            let want = dq.requote(path.as_bytes()).map(|d| String::from_utf8_lossy(&d).into_owned()).unwrap_or_else(|| path.clone());
+            url.path() == want
+        }
+        Err(_) => true,
+    };
+    json!({"ev":"quote","s":case["s"],"protected":case["protected"],"out":out,"url_ok":url_ok})
 }
 
 pub fn replay(cases: &[Value], out: &mut TraceOut) {
